@@ -6,7 +6,7 @@ import numpy as np
 from scipy.spatial import ConvexHull
 
 import gen
-from common import L, ModelRaise, exc_kind
+from common import L, ModelRaise, exc_kind, read_shuffled
 
 RULE = ("convex vertex sets from gen.convex_solid (ellipsoid/lattice/zonotope/box/prism/antiprism/(di)pyramid/"
         "needle/plate/simplex; random rigid motion, offset <=10 diameters, scale 1e-3..1e3) in two vertex orders, "
@@ -700,6 +700,77 @@ def model_sort_faces(ctx, v2, faces_in):
         return ("E", e.kind)
 
 
+def observe(q, key):
+    """read every structural observable of a Polyhedron in an order drawn from `key` (common.read_shuffled):
+    an answer must not depend on what was asked before - in particular not on a cache filled by an earlier read"""
+    def guard(f):
+        def g():
+            try:
+                return f()
+            except Exception as e:  # garbage faces before sort_faces may legitimately raise
+                return ("E", exc_kind(e))
+        return g
+    getters = {
+        "edges": guard(lambda: np.array(q.edges)),
+        "num_edges": guard(lambda: int(q.num_edges)),
+        "edge_vectors": guard(lambda: np.array(q.edge_vectors)),
+        "edge_lengths": guard(lambda: np.array(q.edge_lengths)),
+        "neighbors": guard(lambda: [[int(j) for j in row] for row in q.neighbors]),
+        "normals": guard(lambda: np.array(q.normals)),
+        "equations": guard(lambda: np.array(eqs_of(q))),
+        "faces": guard(lambda: [[int(i) for i in f] for f in q.faces]),
+    }
+    return read_shuffled(getters, key)
+
+
+def check_observed(ctx, case, v, obs, order, prefix, drv):
+    """after the LAST step of a history: the edge observables describe the faces as they are NOW (exact), agree with
+    one another, and equal the (cache-free) model `edges(faces_now)` - theorem `edges_cache_coherent`"""
+    bad = [k for k, x in obs.items() if isinstance(x, tuple) and len(x) == 2 and x[0] == "E"]
+    if bad:
+        ctx.fail(prefix + ":raises", "reading a structural observable raised after the faces were sorted", case,
+                 {"observables": bad, "order": order})
+        return False
+    faces = obs["faces"]
+    E = [(int(a), int(b)) for a, b in np.asarray(obs["edges"]).reshape(-1, 2)]
+    want = sorted(set((min(a, b), max(a, b)) for f in faces for a, b in zip(f, f[1:] + f[:1])))
+    ok = True
+    if E != want:
+        ctx.fail(prefix + ".edges:not-each-edge-once-sorted",
+                 "edges is not the sorted list of the edges of the CURRENT faces, each once as (i<j) "
+                 "(stale after an earlier read?)", case,
+                 {"n": len(E), "want_n": len(want), "order": order, "history": case.get("_history")})
+        ok = False
+    if len(v) - len(E) + len(faces) != 2:
+        ctx.fail(prefix + ".edges:euler", "V - E + F != 2 with E = len(edges)", case,
+                 {"VEF": [len(v), len(E), len(faces)], "order": order, "history": case.get("_history")})
+        ok = False
+    if obs["num_edges"] != len(E) or obs["num_edges"] != len(want):
+        ctx.fail(prefix + ".num_edges:disagrees-with-edges", "num_edges differs from the number of edges of the faces",
+                 case, {"num_edges": obs["num_edges"], "len_edges": len(E), "true": len(want), "order": order})
+        ok = False
+    if E:
+        Ea = np.array(E)
+        ev, el = np.asarray(obs["edge_vectors"]), np.asarray(obs["edge_lengths"])
+        d = gen.diameter(v)
+        exp = v[np.array(want)[:, 1]] - v[np.array(want)[:, 0]] if want else np.zeros((0, 3))
+        if not (ev.shape == exp.shape and ctx.close_enough(ev, exp, d)
+                and ctx.close_enough(el, np.linalg.norm(exp, axis=1), d)):
+            ctx.fail(prefix + ".edge_vectors:inconsistent",
+                     "edge_vectors / edge_lengths are not v[j]-v[i] over the edges of the current faces", case,
+                     {"order": order, "history": case.get("_history")})
+            ok = False
+    if not np.array_equal(np.asarray(obs["normals"]), np.asarray(obs["equations"])[:, :3]):
+        ctx.fail(prefix + ".normals:not-the-equations", "normals differ from equations[:, :3]", case, {"order": order})
+        ok = False
+    # B: the model has no cache - `edges` is a function of the faces as they are now
+    r = Tok(drv.F("st.edges", LF(faces), len(v)))
+    m_edges, m_ne = r.pairs(), r.one()
+    if m_edges != E or m_ne != obs["num_edges"]:
+        ctx.disagree("st.edges:after-history", case, [m_edges[:5], E[:5], m_ne, obs["num_edges"], order])
+    return ok
+
+
 def check_orient_cert(ctx, case, v2, faces_in, faces_out, prefix):
     """hypothesis of `poly_sort_faces_oriented` on this instance: the implementation's faces keep or reverse every
     re-ordered face (the model's `polyReorderFace`), are a closed oriented surface, and the neighbour graph is
@@ -746,8 +817,14 @@ def eval_sort_faces(ctx, case, v, T):
     faces_in, modes = scramble_faces(sub, T.cycles, inv)
     for m in modes:
         ctx.count("sort_faces:face-" + ["permuted", "reversed", "rotated", "kept"][m])
+    hist = ["construct,sort,read", "construct,read,sort,read", "construct,read,sort,read"][int(sub.integers(3))]
+    ctx.count("history:sort:" + hist)
     try:
         q = coxeter.shapes.Polyhedron(v2, [np.array(f) for f in faces_in], faces_are_convex=True)
+        pre = None
+        if hist == "construct,read,sort,read":
+            # answers on garbage faces are not judged against the property, only their side effects
+            pre = observe(q, [case["sub"], "before-sort"])[0]
         q.sort_faces()
     except Exception as e:
         ctx.fail("Polyhedron.sort_faces:raises", "sort_faces raised %s on convex faces of a convex polyhedron"
@@ -799,8 +876,21 @@ def eval_sort_faces(ctx, case, v, T):
         ctx.skipped_near_boundary += 1
     # C
     if q is not None:
-        ok = check_structure(ctx, case, "Polyhedron", v2, q.faces, eqs_of(q), q.neighbors, q.edges, T2,
-                             face_to_truth=list(range(len(T2.sets))), prefix="Polyhedron.sort_faces")
+        case["_history"] = hist
+        obs, order = observe(q, [case["sub"], "after-sort"])
+        ok_obs = check_observed(ctx, case, v2, obs, order, "Polyhedron.sort_faces", ctx.driver)
+        if pre is not None and not isinstance(pre["edges"], tuple) and not isinstance(obs["edges"], tuple):
+            # B: the cache state machine of the model (`EdgeCache`, theorem `edges_cache_coherent`) on this history
+            r = Tok(ctx.driver.F("st.edge_history", LF(faces_in), L([0, [1, LF(obs["faces"])], 0])))
+            nreads = r.one()
+            reads = [r.pairs() for _ in range(nreads)]
+            impl = [[(int(a), int(b)) for a, b in np.asarray(x).reshape(-1, 2)] for x in (pre["edges"], obs["edges"])]
+            if reads != impl:
+                ctx.disagree("st.edge_history", case, [[len(x) for x in reads], [len(x) for x in impl], hist])
+        ok = ok_obs and check_structure(ctx, case, "Polyhedron", v2, obs["faces"], obs["equations"], obs["neighbors"],
+                                        obs["edges"], T2, face_to_truth=list(range(len(T2.sets))),
+                                        prefix="Polyhedron.sort_faces")
+        case.pop("_history", None)
         if ok and case.get("exact"):
             check_surface_cert(ctx, case, v2, [[int(i) for i in f] for f in q.faces], "Polyhedron.sort_faces")
 
@@ -850,14 +940,25 @@ def eval_merge_faces(ctx, case, v, T):
             tris.append(t)
     order = sub.permutation(len(tris))
     tris = [tris[i] for i in order]
+    hist = ["construct,merge,read", "construct,read,merge,read", "construct,read,sort,read,merge,read",
+            "construct,read,sort,read,merge,read"][int(sub.integers(4))]
+    ctx.count("history:merge:" + hist)
+    case["_history"] = hist
     try:
         q = coxeter.shapes.Polyhedron(v, [np.array(t) for t in tris])
+        if "construct,read" in hist:
+            observe(q, [case["sub"], "before-anything"])  # fills every cache on the unsorted triangles
+        if ",sort," in hist:
+            q.sort_faces()
+            obs, order = observe(q, [case["sub"], "after-sort-before-merge"])
+            check_observed(ctx, case, v, obs, order, "Polyhedron.sort_faces", ctx.driver)
+        tris = [[int(i) for i in f] for f in q.faces]
         eq0 = np.array(eqs_of(q))
         nb0 = [[int(j) for j in row] for row in q.neighbors]
-        _ = q.edges  # populate the cache: merge_faces must not leave it stale
         with recording() as rec:
             q.merge_faces(atol=atol, rtol=rtol)
     except Exception as e:
+        case.pop("_history", None)
         ctx.fail("Polyhedron.merge_faces:raises", "merge_faces raised %s on a triangulated convex surface"
                  % exc_kind(e), case, repr(e))
         return
@@ -894,8 +995,11 @@ def eval_merge_faces(ctx, case, v, T):
             else:
                 ctx.skipped_near_boundary += 1
     # C
-    ok = check_structure(ctx, case, "Polyhedron", v, q.faces, eqs_of(q), q.neighbors, q.edges, T,
-                         prefix="Polyhedron.merge_faces")
+    obs, order = observe(q, [case["sub"], "after-merge"])
+    ok = check_observed(ctx, case, v, obs, order, "Polyhedron.merge_faces", ctx.driver)
+    ok = ok and check_structure(ctx, case, "Polyhedron", v, obs["faces"], obs["equations"], obs["neighbors"],
+                                obs["edges"], T, prefix="Polyhedron.merge_faces")
+    case.pop("_history", None)
     if ok and case.get("exact"):
         check_surface_cert(ctx, case, v, [[int(i) for i in f] for f in q.faces], "Polyhedron.merge_faces")
 
@@ -1020,7 +1124,7 @@ def make_case(rng, ctx, exact=False):
 
 
 def run(ctx):
-    n = ctx.budget(80, 2500)
+    n = ctx.budget(80, 1500)
     for i in range(n):
         case = make_case(ctx.rng, ctx, exact=(i % 3 == 2))
         ctx.case(case)
